@@ -361,7 +361,7 @@ func (c *connection) Close() error {
 
 // Detach detaches the connection from poller but doesn't close it.
 func (c *connection) Detach() error {
-	c.detaching = true
+	atomic.StoreInt32(&c.detaching, 1)
 	return c.onClose()
 }
 
